@@ -101,7 +101,7 @@ static Step reloadStep(int64_t id, const FaultSpec &f = FaultSpec()) {
 }
 static std::string pickSource(Rng &r, bool allowVicon) {
     unsigned k = static_cast<unsigned>(r.below(100));
-    if (k < 10) return std::string("vendor:") + VENDORS[r.below(allowVicon && r.chance(1, 4) ? 4 : 3)];
+    if (k < 3) return std::string("vendor:") + VENDORS[r.below(allowVicon && r.chance(1, 4) ? 4 : 3)];
     return "gen:" + tos(r.next() >> 1);
 }
 
@@ -433,6 +433,7 @@ Case gen_case(const std::string &prop, const std::string &tier, uint64_t verif_s
                 std::string src = pickSource(r, false);
                 plan.steps.push_back(loadStep(src)); // reload-then-edit states
                 c.config = "start=" + src;
+                if (src.compare(0, 7, "vendor:") == 0) { pf.pct_big = 0; pf.max_frames = std::min(pf.max_frames, 3u); pf.n_custom_params = std::min(pf.n_custom_params, 2u); } // hundreds of stored frames: keep the history short
             }
             gen_history(r, pf, plan);
         }
